@@ -7,6 +7,7 @@ package output
 // Their handlers are the subject of C06/C07.
 
 //@ func (*Registry).LoadOutputs(r, ctx, target, targetResult, progress) (err)
+//@   ensures [target_lock_released_on_every_path] mmHeld == old(mmHeld)
 //@   modifies target.OutputsLoaded, target.OutputHash, target.CacheTime
 //@   modifies heap("H$S$output.handlers.DockerRegistryOutputHandler$dockerClient"), heap("H$S$output.handlers.dockerLayerProgress$lastCurrent"), heap("H$S$proto.gen.Directory$Directories"), heap("H$S$proto.gen.Directory$Files"), heap("H$S$proto.gen.Directory$Symlinks"), heap("H$S$proto.gen.Tree$Children"), heap("H$S$proto.gen.Tree$Root"), heap("H$S$proto.gen.Tree$sizeCache"), heap("H$S$proto.gen.Tree$state"), heap("H$S$proto.gen.Tree$unknownFields"), heap("M$String$Int$has"), heap("M$String$Int$val"), heap("M$String$Int$len")
 //@   ensures [loaded_flag] err == nil ==> target.OutputsLoaded
@@ -24,6 +25,7 @@ package output
 //@   invariant [waited_ok] forall j int :: {tasks[j]} 0 <= j && j <= rangeindex ==> taskOK(tasks[j])
 
 //@ func (*Registry).WriteOutputs(r, ctx, target, progress) (res, err)
+//@   ensures [target_lock_released_on_every_path] mmHeld == old(mmHeld)
 //@   modifies heap("H$S$output.handlers.DockerRegistryOutputHandler$dockerClient"), heap("H$S$output.handlers.dockerLayerProgress$lastCurrent"), heap("H$S$proto.gen.Directory$Directories"), heap("H$S$proto.gen.Directory$Files"), heap("H$S$proto.gen.Directory$Symlinks"), heap("H$S$proto.gen.Tree$Children"), heap("H$S$proto.gen.Tree$Root"), heap("H$S$proto.gen.Tree$sizeCache"), heap("H$S$proto.gen.Tree$state"), heap("H$S$proto.gen.Tree$unknownFields"), heap("M$String$Int$has"), heap("M$String$Int$val"), heap("M$String$Int$len")
 //@   allocates res
 //@   ensures [result_shape] err == nil ==> res != nil && res.ChangeHash == target.ChangeHash
@@ -35,6 +37,7 @@ package output
 //@   invariant [waited_ok] forall j int :: {tasks[j]} 0 <= j && j <= rangeindex ==> taskOK(tasks[j])
 
 //@ func (*Registry).GetNoCacheOutputHash(r, ctx, target) (res, err)
+//@   ensures [target_lock_released_on_every_path] mmHeld == old(mmHeld)
 //@   modifies heap("H$S$output.handlers.DockerRegistryOutputHandler$dockerClient"), heap("H$S$output.handlers.dockerLayerProgress$lastCurrent"), heap("H$S$proto.gen.Directory$Directories"), heap("H$S$proto.gen.Directory$Files"), heap("H$S$proto.gen.Directory$Symlinks"), heap("H$S$proto.gen.Tree$Children"), heap("H$S$proto.gen.Tree$Root"), heap("H$S$proto.gen.Tree$sizeCache"), heap("H$S$proto.gen.Tree$state"), heap("H$S$proto.gen.Tree$unknownFields"), heap("M$String$Int$has"), heap("M$String$Int$val"), heap("M$String$Int$len")
 //@   allocates res
 //@   ensures [result_shape] err == nil ==> res != nil && res.ChangeHash == target.ChangeHash && len(res.Outputs) == 0
